@@ -189,28 +189,33 @@ End Next.
 (* [u] is the UTC instant of a wake-up, [ul u] what dt_now() reads then; result: the UTC instant at which the function runs *)
 Section Wake.
   Variable lu ul : Z -> Z.
+  Variable wall : Z -> Z.     (* what the wall clock shows (as a UTC instant) at true (monotonic) instant u; the identity for
+                                 a perfect clock, behind it after a step back or while the clock is slewed *)
   Variable cfg : deviations.
 
-  (* legacy trigger_watch l.1146-1150: `if actual_now < time_next: timeout = (time_next - actual_now).total_seconds(); continue` *)
+  (* legacy trigger_watch: `if actual_now < time_next: timeout = <distance to time_next>; continue` (loops until reached) *)
   Fixpoint legacy_wake (fuel : nat) (t u : Z) : option Z :=
     match fuel with
     | O => None
     | S f =>
-        let l := ul u in
+        let w := wall u in
+        let l := ul w in
         if l <? t
-        then legacy_wake f t (u + (if d_legacy_gap_recheck cfg then t - l else lu t - u))
+        then legacy_wake f t (u + (if d_legacy_gap_recheck cfg then t - l else lu t - w))
         else Some u
     end.
 
-  (* default subsystem _cycle l.131-137: `timeout = (time_next_adj - now).total_seconds(); if timeout <= 1e-6: break` *)
+  (* default subsystem _cycle: `while True: now = dt_now(); if now >= time_next: break; timeout = <distance>;
+     if timeout <= 1e-6: break; await asyncio.sleep(timeout)` (D62: compared and re-armed with time_next_adj) *)
   Fixpoint default_wake (fuel : nat) (t adj u : Z) : option Z :=
     match fuel with
     | O => None
     | S f =>
-        let l := ul u in
+        let w := wall u in
+        let l := ul w in
         if d_newsub_adj_recheck cfg
         then (if adj - l <=? 1 then Some u else default_wake f t adj (u + (adj - l)))
-        else (if (t <=? l) || (lu t - u <=? 1) then Some u else default_wake f t adj (u + (lu t - u)))
+        else (if (t <=? l) || (lu t - w <=? 1) then Some u else default_wake f t adj (u + (lu t - w)))
     end.
 End Wake.
 
